@@ -98,7 +98,7 @@ Definition covers (bs : brs) (b : branches) : Prop :=
 Definition args_ok (Δ : gmap cid sty) (Γ : gmap string sty) (sh : option string) (args ps : list name) : Prop :=
   Forall2 (fun a p => exists t, nty p = Some t /\ client_ty Δ Γ sh a t) args ps.
 
-(* ------------------------------------------------------------------ process bodies: the linear connectives and weakening (drop)
+(* ------------------------------------------------------------------ process bodies: the connectives, weakening (drop) and contraction (split)
    typed Δ Γ sh rs s f : f provides s along its provider, using the channels of Δ and the variables of Γ *)
 Inductive typed (Δ : gmap cid sty) : gmap string sty -> option string -> gset string -> sty -> form -> Prop :=
 (* ⊗R : send self<pay, cont> *)
@@ -196,6 +196,14 @@ Inductive typed (Δ : gmap cid sty) : gmap string sty -> option string -> gset s
     client_ty Δ Γ sh from T -> whd T (TDown fm tm A) -> binder x -> sh <> Some (ident x) ->
     typed Δ (<[ident x := A]> Γ) sh (rs ∖ {[ident x]}) s k ->
     typed Δ Γ sh rs s (FShift x from k)
+(* contraction : <x, y> <- split from; k   (the interpreter spawns a forward with the two new providers,
+   which makes the provider of `from` duplicate itself) *)
+| T_Split Γ sh rs s x y from k T :
+    client_ty Δ Γ sh from T ->
+    binder x -> binder y -> ident x <> ident y ->
+    sh <> Some (ident x) -> sh <> Some (ident y) ->
+    typed Δ (<[ident y := T]> (<[ident x := T]> Γ)) sh (rs ∖ {[ident x]} ∖ {[ident y]}) s k ->
+    typed Δ Γ sh rs s (FSplit x y from k)
 | T_Print Γ sh rs s l k :
     typed Δ Γ sh rs s k ->
     typed Δ Γ sh rs s (FPrint l k)
@@ -248,13 +256,15 @@ Definition msg_typed (Δ : gmap cid sty) (k : cid) (m : msg) : Prop :=
   | RCLS => exists md, whd T (TUnit md) /\ chan (m_c1 m) = None /\ chan (m_c2 m) = None
   | RCST => exists fm tm A, whd T (TDown fm tm A) /\ chan_ty Δ (m_c1 m) A /\ chan (m_c2 m) = None
   | RSHF => exists fm tm A, whd T (TUp fm tm A) /\ prov_ty Δ (m_c1 m) A
-  | RFWD => pol_of_ty T Neg /\ exists q, m_provs m = [q] /\ prov_ty Δ q T
+  | RFWD => pol_of_ty T Neg /\ m_provs m <> [] /\ Forall (fun q => prov_ty Δ q T) (m_provs m)
   | RGC => pol_of_ty T Neg       (* a request to the provider to drop itself *)
   end.
 
-(* linear fragment: exactly one provider *)
+(* a process provides the same type along all its providers (several after a split: it then
+   duplicates itself before doing anything else) *)
 Definition proc_typed (Δ : gmap cid sty) (p : proc) : Prop :=
-  exists n s rs, pr_provs p = [n] /\ prov_ty Δ n s /\ typed Δ ∅ None rs s (pr_body0 p).
+  exists s rs, pr_provs p <> [] /\ Forall (fun n => prov_ty Δ n s) (pr_provs p) /\
+               typed Δ ∅ None rs s (pr_body0 p).
 
 (* identifiers in the private namespace of a live process above its counter are unused *)
 Definition ns_fresh (Δ : gmap cid sty) (c : config) : Prop :=
